@@ -14,14 +14,15 @@ import (
 )
 
 type Op struct {
-	Node   int
-	Kind   string // upd cupd del reset delobjs sset nadd ndel sub
-	Obj    *Obj   `json:",omitempty"`
-	Key    string `json:",omitempty"`
-	Objs   []Obj  `json:",omitempty"`
-	Member int    `json:",omitempty"`
-	SubN   int    `json:",omitempty"` // sub: node to subscribe to
-	SubM   string `json:",omitempty"` // sub: mode
+	Node    int
+	Kind    string // upd cupd del reset delobjs sset nadd ndel ndelm sub
+	Obj     *Obj   `json:",omitempty"`
+	Key     string `json:",omitempty"`
+	Objs    []Obj  `json:",omitempty"`
+	Member  int    `json:",omitempty"`
+	Members []int  `json:",omitempty"` // ndelm: members leaving the outer collection in one batch (DeleteObjects)
+	SubN    int    `json:",omitempty"` // sub: node to subscribe to
+	SubM    string `json:",omitempty"` // sub: mode
 }
 
 func (o Op) String() string {
@@ -43,6 +44,8 @@ func (o Op) String() string {
 		return s
 	case "nadd", "ndel":
 		return fmt.Sprintf("%s n%d member=%d", o.Kind, o.Node, o.Member)
+	case "ndelm":
+		return fmt.Sprintf("ndelm n%d members=%v", o.Node, o.Members)
 	}
 	return fmt.Sprintf("sub node=%d mode=%s", o.SubN, o.SubM)
 }
@@ -349,7 +352,8 @@ func (g *histGen) genGlobal(bulk, side bool) []Op {
 				ops = append(ops, Op{Node: n.ID, Kind: "sset", Obj: &o})
 			}
 		case kNested:
-			// at most one membership change per phase: removals are executed at a quiescent point (see main.go)
+			// at most one membership change per join and phase: they are executed after the phase, the first of a
+			// round at a quiescent point (see main.go, which may add batch removals "ndelm" from a PRNG stream of its own)
 			for i := 0; i < r.Intn(2); i++ {
 				cur := g.model.Nested[n.ID]
 				var cands []int
